@@ -398,14 +398,14 @@ def illumina_e2e_case(args):
     for k, (a, b) in enumerate(short):
         for rep in range(2):
             sreads.append({"name": "s%d_%d" % (k, rep), "chr": "chr1", "blocks": [[a - 40 - rep, a - 1], [b + 1, b + 40 + rep]]})
-    if mirror:
-        return (sset, nfiles, mirror), [], 0, 0           # (reserved)
+    # mirror == 1 here means: the same run with --splice_correction_strategy none
     paths = syn.materialise(w, dd, gtf=False)
     sb = []
     for fi in range(nfiles):
         sb.append(syn.write_bam(w, os.path.join(dd, "short%d.bam" % fi), reads=[r for i, r in enumerate(sreads) if i % nfiles == fi], seqs=seqs))
     out = os.path.join(dd, "out")
-    rc = run.run_isoquant(run.base_argv(paths, out, genedb=False, extra=["--no_model_construction", "--illumina_bam"] + sb), paths["home"],
+    rc = run.run_isoquant(run.base_argv(paths, out, genedb=False, extra=(["--splice_correction_strategy", "none"] if mirror else []) +
+                                        ["--no_model_construction", "--illumina_bam"] + sb), paths["home"],
                           os.path.join(dd, "o.txt"))
     errs = []
     if rc != 0:
@@ -431,6 +431,9 @@ def illumina_e2e_case(args):
         cb = b["blocks"]
         if cb != list(blocks):
             changed += 1
+            if mirror and not any(e[0] == "none-changes-alignment" for e in errs):
+                errs.append(("none-changes-alignment", "--splice_correction_strategy none with --illumina_bam: read %s %s input %s corrected %s" %
+                             (nm, list(devs), blocks, cb)))
         if cb[0][0] != blocks[0][0] or cb[-1][1] != blocks[-1][1]:
             errs.append(("start-end-moved:" + kinds, "read %s %s moved from %d-%d to %d-%d" % (nm, list(devs), blocks[0][0], blocks[-1][1], cb[0][0], cb[-1][1])))
         own_l = set(blocks[i][1] + 1 for i in range(len(blocks) - 1))
@@ -482,7 +485,7 @@ def run(ctx):
                           {"exons": ex, "short_introns": short})
     ctx.note("B: %d short-read intron subsets (<=%d of %d) x %d reads = %d corrector calls, %d changed the alignment" %
              (len(subsets), maxk, len(menu), len(reads), nb, cb))
-    cjobs = [(ss, nf, 0, ctx.scratch) for ss in SHORT_SETS for nf in ((1, 2) if quick else (1, 2, 3))]
+    cjobs = [(ss, nf, 0, ctx.scratch) for ss in SHORT_SETS for nf in ((1, 2) if quick else (1, 2, 3))] + [("annotated", 1, 1, ctx.scratch)]
     nc = cc = 0
     for key, errs, n, ch in core.pmap(illumina_e2e_case, cjobs):
         nc += n
